@@ -116,9 +116,12 @@ def run_cases(res, cases, seed, timeout=1500):
                           case_text(culprit, seed) + "# " + log[-500:].replace("\n", "\n# ") + "\n")
         R.update(C.read_obs(rust_out))
     res.cov["t_harness_s"] = round(_t.time() - _th, 1)
-    mcases = os.path.join(wd, "model_cases.txt")
-    with open(mcases, "w") as f:
+    import io
+    blocks = []
+    if True:
         for c in cases:
+            f = io.StringIO()
+            blocks.append(f)
             pc = 0 if c["comp"].startswith("none") else 1
             f.write("case %s content\ncfg pc=%d dedup=%d\n" % (c["id"], pc, c["dedup"]))
             keys = {}
@@ -142,13 +145,11 @@ def run_cases(res, cases, seed, timeout=1500):
                 if l.startswith("@oracle events"):
                     f.write("events" + l[len("@oracle events"):] + "\n")
             f.write("end\n")
-    model_out = os.path.join(wd, "model.out")
     import time as _t
     _t0 = _t.time()
-    rc, log = C.run_model(mcases, model_out)
-    if rc != 0:
-        res.violation("model driver crashed (exit %d)" % rc, log[-2000:], found_input=False)
-    M = C.read_obs(model_out)
+    M, problems = C.run_model_sharded([b.getvalue() for b in blocks], wd, timeout=3000)
+    for pr in problems:
+        res.violation(pr, case_text(cases[0], seed), found_input=False)
     res.cov["t_model_s"] = round(_t.time() - _t0, 1)
     C.sh(["rm", "-rf", tmp])
     return R, M
